@@ -122,7 +122,7 @@ theorem coerceDefault_noCrash (E : Ext) (t : IrTy) (lit : Lit) : NoCrash (coerce
 theorem populateDefault_noCrash (E : Ext) (C : CExt) (us : List CUnion) (t : IrTy) (lit : Lit) (hk : tyKnown us t = true) :
     NoCrash (populateDefault E C us t lit) := by
   unfold populateDefault
-  refine noCrash_ite (noCrash_invalid _) ?_
+  refine noCrash_ite (noCrash_invalid _) (noCrash_ite (noCrash_invalid _) ?_)
   by_cases hd : defaultable (unwrapAll t) = true
   · simp only [hd, Bool.not_true, Bool.false_eq_true, ↓reduceIte]
     cases hc : coerceDefault E t lit with
